@@ -216,7 +216,7 @@ func runC19Settings(c *Ctx, fields []driver.VerifField) {
 		}
 		return ops
 	}
-	for k := 0; k < c.Budget(180, 15000); k++ {
+	for k := 0; k < c.Budget(180, 3000); k++ {
 		cur := jsonSafe()
 		if c.R.P(1, 5) {
 			cur = genConfig(c.R, fields) // may hold NaN/Inf: saving then fails in json.Marshal
@@ -248,7 +248,7 @@ func runC19Settings(c *Ctx, fields []driver.VerifField) {
 func runC19Conc(c *Ctx, fields []driver.VerifField) {
 	prev := runtime.GOMAXPROCS(8)
 	defer runtime.GOMAXPROCS(prev)
-	for k := 0; k < c.Budget(40, 3000); k++ {
+	for k := 0; k < c.Budget(40, 600); k++ {
 		dir, fname := c19Dir()
 		cur := driver.VerifDefaultConfig()
 		driver.VerifSetCurrentConfig(cur)
